@@ -145,14 +145,17 @@ Definition centres (R : list (option nat)) : list nat :=
 (* The harness passes the implementation's integer squared distances [Dint]; cut-offs as
    8*dist_cutoff_sq and 2*scale (both integers).  dist_cutoff_sq *= scale**2 is then
    cut8 * s2^2 in units of 1/32, and distances are brought to the same unit. *)
-Inductive mode := Cut (cut8 : list Z) (s2 : Z) | Gab (shell : nat).
+(* [Both]: dist_cutoff_sq and gabriel_shell both given -- "If both of them are set, the distance
+   cutoff is used" (class docstring); the rule is chosen by `dist_cutoff_sq is None`, the same
+   test that decides whether the Gabriel graph is computed (fixes/F23_quickshift_both_rules.diff) *)
+Inductive mode := Cut (cut8 : list Z) (s2 : Z) | Gab (shell : nat) | Both (cut8 : list Z) (s2 : Z) (shell : nat).
 Definition eff_cut (cut8 : list Z) (s2 : Z) : list Z := map (fun c => c * s2 * s2) cut8.
 Definition scaleD (k : Z) (D : list (list ExtZ)) : list (list ExtZ) :=
   map (map (fun d => match d with Some x => Some (k * x) | None => None end)) D.
 
 Definition quickshift (Dint : list (list ExtZ)) (w : list Z) (m : mode) : option (list (option nat)) :=
   match m with
-  | Cut cut8 s2 => fit_cut (scaleD 32 Dint) w (eff_cut cut8 s2)
+  | Cut cut8 s2 | Both cut8 s2 _ => fit_cut (scaleD 32 Dint) w (eff_cut cut8 s2)
   | Gab shell => fit_gab Dint w shell
   end.
 
